@@ -24,8 +24,11 @@ def fired(patch):
     finally:
         shutil.rmtree(s, ignore_errors=True)
     return out
+only = os.environ.get("ONLY", "")
 for d in sorted(glob.glob(os.path.join(src, "C*"))):
     prop = os.path.basename(d)
+    if only and prop not in only.split(","):
+        continue
     for n in (1, 2):
         rec = os.path.join(res, "%s-%d.json" % (prop, n))
         if not os.path.exists(rec):
@@ -36,6 +39,8 @@ for d in sorted(glob.glob(os.path.join(src, "C*"))):
             print(prop, n, "NOT CONFIRMED", {k: v.get(k) for k in ("clean_demo_pass", "patched_demo_fails", "suite_passes_with_patch")}); continue
         sid = "%s-%d" % (prop, first + n - 1)
         dst = os.path.join(HERE, "seeded", sid)
+        if os.path.exists(os.path.join(dst, "meta.json")):
+            continue
         os.makedirs(dst, exist_ok=True)
         patch = os.path.join(d, "patch%d.diff" % n)
         shutil.copy(patch, os.path.join(dst, "patch.diff"))
